@@ -1,9 +1,14 @@
 from . import appsim
+from . import native_c08
 
 PID = "C15"
 
 
 def concretise(res, tier, seed):
+    # a close frame from the server must reach the application as such even when the reply to it cannot be written
+    p = native_c08.check_failed_reply()
+    if p:
+        return dict(found=True, witness=dict(kind="failed-reply"), detail=p)
     for n, probs in appsim.run_property(PID):
         if probs:
             return dict(found=True, witness=dict(scenario=n), detail=probs)
@@ -11,4 +16,6 @@ def concretise(res, tier, seed):
 
 
 def replay_witness(w):
+    if w.get("kind") == "failed-reply":
+        return bool(native_c08.check_failed_reply())
     return appsim.replay_witness(w)
